@@ -113,6 +113,9 @@ def replace(interp, s, old, new):
         raise Unsupported("replace with symbolic pattern")
     if isinstance(s, str):
         return s.replace(old, new)
+    r = interp.ctx.str_replace(interp, s, old, new)
+    if r is not None:
+        return r
     segs = list(s.segs)
     # an occurrence of `old` must lie inside literal text: show that it cannot touch any hole
     for i, seg in enumerate(segs):
